@@ -228,6 +228,9 @@ func (s *scen) exec(st *Step) {
 		s.stepDrain(st)
 	case "obs":
 		s.stepObs(st)
+	case "kfault": // fault injection: the n-th registration of a new knote fails (kevent: ENOMEM)
+		sim.SimFailAdd(st.N)
+		s.emit(J{"k": "kfault", "n": st.N})
 	case "loop":
 		for i := 0; i < st.N; i++ {
 			for j := range st.Body {
@@ -440,7 +443,7 @@ func (s *scen) stepRmrf(st *Step) {
 		ops = append(ops, J{"op": "unlink", "p": tp, "to": []string{}, "ret": ret, "kind": kind, "notes": notes})
 	}
 	walk(st.P)
-	s.emit(J{"k": "fs", "op": "rep", "p": []string{}, "to": []string{}, "ret": "ok", "kind": "", "notes": []note{}, "ops": ops, "unordered": true})
+	s.emit(J{"k": "fs", "op": "rep", "p": []string{}, "to": []string{}, "ret": "ok", "kind": "", "notes": []note{}, "ops": ops, "unordered": true, "atomic": false, "final": []J{}})
 }
 
 func (s *scen) stepFs(st *Step) {
@@ -455,6 +458,29 @@ func (s *scen) stepFs(st *Step) {
 // stepRep: a burst of pattern instances; every single operation is logged inside one line
 func (s *scen) stepRep(st *Step) {
 	ops := []J{}
+	if st.Atomic {
+		// the whole burst happens before the reader is woken up; what the directories look like
+		// at that moment (an observation of the environment) goes into the trace line
+		sim.SimHold()
+		defer func() {
+			final := []J{}
+			filepath.WalkDir(s.root, func(p string, d os.DirEntry, err error) error {
+				if err != nil || !d.IsDir() {
+					return nil
+				}
+				names := []J{}
+				if es, e := os.ReadDir(p); e == nil {
+					for _, x := range es {
+						names = append(names, J{"n": s.names.tok(x.Name()), "kind": kindOf(filepath.Join(p, x.Name()), false)})
+					}
+				}
+				final = append(final, J{"dir": s.tokPath(p), "names": names}) // ["/", "d1"]: the real place, as in user[u].real
+				return nil
+			})
+			s.emit(J{"k": "fs", "op": "rep", "p": []string{}, "to": []string{}, "ret": "ok", "kind": "", "notes": []note{}, "ops": ops, "unordered": false, "atomic": true, "final": final})
+			sim.SimRelease()
+		}()
+	}
 	for i := 1; i <= st.K; i++ {
 		for _, ps := range st.Pat {
 			q := ps
@@ -464,7 +490,10 @@ func (s *scen) stepRep(st *Step) {
 			ops = append(ops, J{"op": q.Op, "p": orEmpty(q.P), "to": orEmpty(q.To), "ret": ret, "kind": kind, "notes": notes})
 		}
 	}
-	s.emit(J{"k": "fs", "op": "rep", "p": []string{}, "to": []string{}, "ret": "ok", "kind": "", "notes": []note{}, "ops": ops, "unordered": false})
+	if st.Atomic {
+		return
+	}
+	s.emit(J{"k": "fs", "op": "rep", "p": []string{}, "to": []string{}, "ret": "ok", "kind": "", "notes": []note{}, "ops": ops, "unordered": false, "atomic": false, "final": []J{}})
 }
 
 func subst(p []string, i int) []string {
@@ -658,7 +687,7 @@ func (s *scen) stepDrain(st *Step) {
 func (s *scen) stepObs(st *Step) {
 	q := s.quiesce()
 	line := J{"k": "obs", "q": q, "fds": []J{}, "nkq": 0, "npipe": 0, "wds": []int{}, "npath": -1, "nbydir": -1, "nseen": -1, "nbyuser": -1, "paths": [][]string{},
-		"rd": "none", "pendingnotes": sim.SimPending(), "retrievals": []int{}}
+		"rd": "none", "pendingnotes": sim.SimPending(), "retrievals": []int{}, "kfaultleft": sim.SimFailLeft()}
 	fds := []J{}
 	for _, f := range sim.SimOpenFds() {
 		switch f.Kind {
